@@ -32,7 +32,13 @@
    [select] with both branches ready is a nondeterministic choice; the timer (or the
    cancellation of the parent context) is an environment event that may fire at any moment
    while the thread waits, but only when timeout > 0 (without a timeout the code does not
-   look at the context at all). *)
+   look at the context at all).
+
+   The caller's own context is a second environment event ([LCancel]: cancelled, or its
+   deadline passed), possible at any moment, before, while or after the request is queued.
+   With a timeout configured the select waits on a context derived from it, so a queued
+   request leaves with ErrTimeout; without a timeout the blocking send ignores it: the
+   event changes nothing, the request stays queued and can only go on by taking a permit. *)
 From Coq Require Import List ZArith Bool.
 Import ListNotations.
 Open Scope Z_scope.
@@ -64,7 +70,8 @@ Definition sem_init (n : nat) : state := {| chan := 0; threads := repeat PIdle n
 Inductive label :=
 | LEnter                   (* Handler called: reaches the send *)
 | LAcquire                 (* l.tasks <- struct{}{} completes *)
-| LTimeout                 (* <-ctx.Done() chosen by the select *)
+| LTimeout                 (* <-ctx.Done() chosen by the select: the limiter's own timer *)
+| LCancel                  (* the caller's context is cancelled / expires *)
 | LEnd (o : outcome)       (* next finishes in this way *)
 | LRelease.                (* deferred <-l.tasks *)
 
@@ -81,6 +88,8 @@ Definition tstep (c : cfg) (ch : Z) (p : pc) (l : label) : option (Z * pc) :=
   | PIdle, LEnter => Some (ch, PWaiting)
   | PWaiting, LAcquire => if ch <? cap c then Some (ch + 1, PRunning) else None   (* send blocks when full *)
   | PWaiting, LTimeout => if tmo c >? 0 then Some (ch, PDone RTimeout) else None  (* no select without timeout *)
+  | PWaiting, LCancel => if tmo c >? 0 then Some (ch, PDone RTimeout) else Some (ch, PWaiting)
+  | p, LCancel => Some (ch, p)               (* not queued: the limiter is not looking *)
   | PRunning, LEnd o => Some (ch, PReleasing o)
   | PReleasing o, LRelease => if 0 <? ch then Some (ch - 1, PDone (ROut o)) else None (* receive blocks when empty *)
   | _, _ => None
@@ -126,6 +135,11 @@ Fixpoint count (f : pc -> bool) (l : list pc) : Z :=
 Definition running (s : state) : Z := count is_running (threads s).
 Definition holders (s : state) : Z := count is_holder (threads s).
 Definition all_done (s : state) : bool := forallb is_done (threads s).
+
+Definition is_cancel (l : label) : bool := match l with LCancel => true | _ => false end.
+(* the steps of a schedule taken by the requests themselves or the limiter's timer *)
+Definition own_steps (sched : list (nat * label)) : list (nat * label) :=
+  filter (fun x => negb (is_cancel (snd x))) sched.
 
 (* steps a request can still take: bounds the length of every schedule *)
 Definition rank (p : pc) : Z :=
